@@ -1,7 +1,7 @@
 import Req.Lemmas.C07H1
 import Req.Lemmas.C07H3
 import Req.H2.Frame
-import Req.Client.Digest
+import Req.Client.DigestAuth
 /-!
 C07 — property theorems, part 4: every server-reachable hand-rolled loop modelled anywhere in this
 framework TERMINATES (the models run on fuel; the theorems show that any fuel above the input length
@@ -18,7 +18,7 @@ than it received), and its outcome is CLASSIFIED (a value or one of the named er
 | `Framer.ReadFrame` called in `clientConnReadLoop.run` `for {}` | `H2.Frame.readFrame/readAll` | `h2_readFrame_progress`, `h2_readAll_terminates`, `h2_readFrame_total_classified` |
 | `frameParser.ParseNext` `for {}` (internal/http3/frames.go:29) | `H3.Frame.parseNext` | `h3_parseNext_progress` (+ `h3_parseNext_terminates` in C07Budget) |
 | `parseSettingsFrame` `for b.Len() > 0` | `H3.Frame.settingsLoop` | `h3_settings_terminates` |
-| `parseChallenge` (digest.go:115) | `Digest.parseChallenge` | `digest_total_classified` |
+| `parseChallenge` (digest.go, the RFC 7235 challenge-list reader) | `DigestAuth.parseChallenge` | `digest_total_classified` |
 -/
 namespace Req.Props.C07
 namespace total
@@ -242,47 +242,105 @@ theorem h3_settings_terminates (f1 f2 : Nat) (a : SettingsAcc) (b : Bytes)
             · rfl
             · exact ih m _ b2 (by omega) (by omega)
 
-/-! ### digest challenge -/
-open Req.Digest
+/-! ### digest challenge (the repaired RFC 7235 reader, `Req.DigestAuth` of C20) -/
+open Req.Digest Req.DigestAuth
 
-theorem setField_err (c : Challenge) (k v : Bytes) (e : Req.Digest.Err) (h : setField c k v = .error e) :
-    e = .badChallenge ∨ e = .charset := by
-  unfold setField at h
-  simp only at h
+theorem setParam_err (c : Challenge) (n v : Bytes) (e : Req.Digest.Err)
+    (h : setParam c n v = .error e) : e = .charset := by
+  unfold setParam at h
   repeat' split at h
-  all_goals first | (cases h; done) | (cases h; simp)
+  all_goals first | (cases h; done) | (cases h; rfl)
 
-theorem parseFields_err (ps : List Bytes) (c : Challenge) (e : Req.Digest.Err)
-    (h : parseFields ps c = .error e) : e = .badChallenge ∨ e = .charset := by
-  induction ps generalizing c with
-  | nil => simp [parseFields] at h
-  | cons p rest ih =>
-    unfold parseFields at h
-    split at h
+theorem addParam_err (st : PState) (n r : Bytes) (e : Req.Digest.Err)
+    (h : addParam st n r = .error e) : e = .badChallenge ∨ e = .charset := by
+  unfold addParam at h
+  simp only at h
+  split at h
+  · split at h
     · cases h; exact Or.inl rfl
     · split at h
-      · exact ih _ h
-      · next e' he =>
-        cases h
-        exact setField_err _ _ _ _ he
+      · cases h
+      · split at h
+        · split at h
+          · cases h
+          · next e' he => cases h; exact Or.inr (setParam_err _ _ _ _ he)
+        · cases h
+  · cases h; exact Or.inl rfl
 
-/-- **digest_total_classified**: for EVERY `WWW-Authenticate` text the challenge parser returns a
-challenge or one of exactly two named errors (bad challenge, unsupported charset). -/
-theorem digest_total_classified (input : Bytes) :
-    (∃ c, parseChallenge input = .ok c) ∨ parseChallenge input = .error .badChallenge ∨
-    parseChallenge input = .error .charset := by
-  cases h : parseChallenge input with
+theorem stepElem_err (st : PState) (e0 : Bytes) (e : Req.Digest.Err)
+    (h : stepElem st e0 = .error e) : e = .badChallenge ∨ e = .charset := by
+  unfold stepElem at h
+  simp only at h
+  split at h
+  · cases h
+  · split at h
+    · cases h; exact Or.inl rfl
+    · split at h
+      · split at h
+        · cases h; exact Or.inl rfl
+        · split at h
+          · cases h
+          · split at h
+            · split at h
+              · cases h; exact Or.inl rfl
+              · cases h
+            · exact addParam_err _ _ _ _ h
+      · exact addParam_err _ _ _ _ h
+
+theorem parseElems_err (es : List Bytes) (st : PState) (e : Req.Digest.Err)
+    (h : parseElems es st = .error e) : e = .badChallenge ∨ e = .charset := by
+  induction es generalizing st with
+  | nil => simp [parseElems] at h
+  | cons x xs ih =>
+    unfold parseElems at h
+    split at h
+    · exact ih _ h
+    · next err he => cases h; exact stepElem_err _ _ _ he
+
+theorem selectQop_err (algOf : Bytes → Option Alg) (a o : Bytes) (e : Req.Digest.Err)
+    (h : selectQop algOf a o = .error e) : e = .algNotSupported ∨ e = .qopNotSupported := by
+  unfold selectQop at h
+  split at h
+  · cases h; exact Or.inl rfl
+  · simp only at h
+    repeat' split at h
+    all_goals first | (cases h; done) | (cases h; exact Or.inr rfl)
+
+theorem pick_err (algOf : Bytes → Option Alg) (l : List Challenge) (e : Req.Digest.Err)
+    (h : pick algOf l = .error e) :
+    e = .badChallenge ∨ e = .algNotSupported ∨ e = .qopNotSupported := by
+  unfold pick at h
+  split at h
+  · cases h; exact Or.inl rfl
+  · split at h
+    · cases h
+    · next e' he =>
+      split at h
+      · cases h
+      · cases h; exact Or.inr (selectQop_err _ _ _ _ he)
+
+/-- **digest_total_classified**: for EVERY `WWW-Authenticate` text — any list of challenges of any
+schemes — the challenge reader returns a Digest challenge or one of exactly four named errors (bad
+challenge, unsupported charset, unsupported algorithm, no supported qop). -/
+theorem digest_total_classified (algOf : Bytes → Option Alg) (input : Bytes) :
+    (∃ c, Req.DigestAuth.parseChallenge algOf input = .ok c) ∨
+    ∃ e, Req.DigestAuth.parseChallenge algOf input = .error e ∧
+      (e = .badChallenge ∨ e = .charset ∨ e = .algNotSupported ∨ e = .qopNotSupported) := by
+  cases h : Req.DigestAuth.parseChallenge algOf input with
   | ok c => exact Or.inl ⟨c, rfl⟩
   | error e =>
-    have : e = .badChallenge ∨ e = .charset := by
-      unfold parseChallenge at h
-      simp only at h
-      split at h
-      · exact parseFields_err _ _ _ h
-      · cases h; exact Or.inl rfl
-    rcases this with rfl | rfl
-    · exact Or.inr (Or.inl rfl)
-    · exact Or.inr (Or.inr rfl)
+    refine Or.inr ⟨e, rfl, ?_⟩
+    unfold Req.DigestAuth.parseChallenge at h
+    split at h
+    · next e' he =>
+      cases h
+      rcases parseElems_err _ _ _ he with h1 | h1
+      · exact Or.inl h1
+      · exact Or.inr (Or.inl h1)
+    · rcases pick_err _ _ _ h with h1 | h1 | h1
+      · exact Or.inl h1
+      · exact Or.inr (Or.inr (Or.inl h1))
+      · exact Or.inr (Or.inr (Or.inr h1))
 
 /-- non-vacuity -/
 example : decodeChunked 4096 [53, 13, 10, 104, 101, 108, 108, 111, 13, 10, 48, 13, 10, 13, 10] =
